@@ -112,6 +112,11 @@ fn encode_case(rng: &mut Rng, out: &mut CaseOut) {
     }
     let lens: Vec<usize> = shards.iter().map(Vec::len).collect();
     let desc = format!("encode({k}, {r}, {} shards, lens {:?})", n, &lens[..lens.len().min(6)]);
+    // preceded by a failing call of the same shape in a third of the cases
+    if n > 0 && rng.chance(1, 3) {
+        let _ = guarded(|| reed_solomon_simd::encode(k, r, &shards[..n - 1]));
+        out.tag("encode:primed-by-other-call");
+    }
     // The iterator handed to encode() is either the plain slice (exact
     // size_hint) or a filtering adaptor over a longer candidate list (upper
     // bound of size_hint larger than what is really yielded, lower bound 0).
@@ -379,6 +384,19 @@ fn decode_case(rng: &mut Rng, out: &mut CaseOut) {
         o.iter().take(6).map(|(i, s)| (*i, s.len())).collect::<Vec<_>>(),
         rec.iter().take(6).map(|(i, s)| (*i, s.len())).collect::<Vec<_>>()
     );
+    // The one-shot functions are plain functions: what a call returns must not
+    // depend on earlier calls. In a third of the cases the judged call is
+    // preceded, on this thread, by a failing call with the same counts and
+    // shard size (too few shards, at least one recovery shard).
+    if real && rng.chance(1, 3) && !recovery.is_empty() && k >= 2 {
+        let ri = rng.below(kr);
+        let few_o: Vec<(usize, &Vec<u8>)> = (0..rng.below(k - 1)).map(|i| (i, &originals[i])).collect();
+        let prim = guarded(|| reed_solomon_simd::decode(k, r, few_o, [(ri, &recovery[ri])]));
+        out.tag(match prim {
+            Ok(Err(_)) => "decode:primed-by-failing-call",
+            _ => "decode:primed-by-other-call",
+        });
+    }
     // iterators with inexact size_hint in half of the cases (see encode_case)
     let inexact = rng.chance(1, 2);
     let junk = (usize::MAX, Vec::new());
